@@ -88,6 +88,10 @@ var c10Templates = []string{
 	`((lambda (&key p q) p) :x1 1 :x2 2 :x3 3 :x4 4 :x5 5 :x6 6)`,
 	`(s:validate (s:make-validator s:sorted-map (s:no-other-keys (s:has-key "a"))) (sorted-map "a" 1 "z1" 1 "z2" 2 "z3" 3 "z4" 4 "z5" 5))`,
 	`(json:load-string "{\"a\":1,\"a\":2,\"b\":[}")`,
+	// a function reachable under several names, some of them rebound: the name an error reports
+	`(defun al-f (x) (car x)) (set 'al-g al-f) (set 'al-h al-f) (set 'al-i al-f) (set 'al-j al-f) (set 'al-j 0) (set 'al-i 1) (handler-bind ((condition (lambda (c &rest a) (debug-print c a) (rethrow)))) (al-g 5))`,
+	`(defun pair-up (a b) (list a b)) (set 'mk-pair pair-up) (set 'mk2 pair-up) (set 'mk3 pair-up) (set 'mk3 ()) (list (mk-pair 1))`,
+	`(labels ((inner (x) (undefined-thing x))) (set 'k1 inner) (set 'k2 inner) (set 'k3 inner) (set 'k4 inner) (set 'k4 0) (k2 1))`,
 	// several children of one container fail: which failure is reported must not depend on map order
 	`(json:load-string "{\"k1\":9223372036854775808,\"k2\":99999999999999999999,\"k3\":18446744073709551616,\"k4\":9223372036854775809,\"k5\":-9223372036854775809,\"k6\":123456789012345678901234}" :exact-integers true)`,
 	`(json:load-bytes (to-bytes "[1,{\"p\":{\"x\":-9223372036854775810,\"y\":9223372036854775811,\"z\":9223372036854775812,\"w\":9223372036854775813},\"q\":9223372036854775814}]") :exact-integers true)`,
